@@ -143,7 +143,7 @@ pub fn pure_rules(seed: u64, n: u64) -> Out {
 
 fn gen_conn_info(rng: &mut Rng) -> ConnectionInfo {
     let long = format!("{}\u{1F600}{}", "a".repeat(62), "z".repeat(200));
-    let texts: [&str; 12] = ["", "h", "127.0.0.1", "h\u{f6}st", "with space", "a:b", "/path", "::1", "p%40ss", "\u{0}", "null", long.as_str()];
+    let texts: [&str; 18] = ["", "h", "127.0.0.1", "h\u{f6}st", "with space", "a:b", "/path", "::1", "p%40ss", "\u{0}", "null", long.as_str(), "[::1]", "[fe80::1%eth0]", "[", "]", "[]", "[h]"];
     let addr = match rng.below(3) {
         0 => ConnectionAddr::Tcp(rng.pick(&texts).to_string(), *rng.pick(&[0u16, 1, 6379, 65535])),
         1 => ConnectionAddr::TcpTls { host: rng.pick(&texts).to_string(), port: *rng.pick(&[0u16, 6380, 65535]), insecure: rng.chance(1, 2) },
@@ -237,10 +237,21 @@ fn gen_pool_config(rng: &mut Rng) -> PoolConfig {
         Duration::new(secs, nanos)
     };
     let od = |rng: &mut Rng| if rng.chance(2, 3) { Some(dur(rng)) } else { None };
+    let queue_mode = if rng.chance(1, 2) { QueueMode::Fifo } else { QueueMode::Lifo };
+    if rng.chance(1, 5) {
+        // the default configuration, changed in at most one place
+        let mut p = PoolConfig { queue_mode, ..Default::default() };
+        match rng.below(4) {
+            0 => p.timeouts.wait = Some(dur(rng)),
+            1 => p.timeouts.recycle = Some(Duration::ZERO),
+            _ => {}
+        }
+        return p;
+    }
     PoolConfig {
         max_size: *rng.pick(&[0usize, 1, 16, usize::MAX]),
         timeouts: Timeouts { wait: od(rng), create: od(rng), recycle: od(rng) },
-        queue_mode: if rng.chance(1, 2) { QueueMode::Fifo } else { QueueMode::Lifo },
+        queue_mode,
     }
 }
 
@@ -327,6 +338,41 @@ pub fn serialisation(seed: u64, n: u64) -> Out {
         let desc = format!("{:?}", c);
         o.case(&desc, c.connection.is_some());
         match serde_json::to_string(&c).map_err(|e| e.to_string()).and_then(|s| serde_json::from_str::<Config>(&s).map_err(|e| format!("{} for {}", e, s))) {
+            Ok(back) => {
+                if format!("{:?}", back) != desc {
+                    o.bad("config_round_trip_changed", format!("{} -> {:?}", desc, back), &desc);
+                }
+            }
+            Err(e) => o.bad("config_round_trip_failed", e, &desc),
+        }
+        // the cluster and sentinel flavours of the same thing
+        let cc = deadpool_redis::cluster::Config {
+            urls: if rng2.chance(1, 2) { Some(vec![rng2.pick(GOOD_URLS).to_string(), rng2.pick(GOOD_URLS).to_string()]) } else { None },
+            connections: if rng2.chance(1, 2) { Some(vec![gen_conn_info(&mut rng2)]) } else { None },
+            pool: if rng2.chance(2, 3) { Some(gen_pool_config(&mut rng2)) } else { None },
+            read_from_replicas: rng2.chance(1, 2),
+        };
+        let desc = format!("{:?}", cc);
+        o.case(&desc, cc.pool.is_some());
+        match serde_json::to_string(&cc).map_err(|e| e.to_string()).and_then(|s| serde_json::from_str::<deadpool_redis::cluster::Config>(&s).map_err(|e| format!("{} for {}", e, s))) {
+            Ok(back) => {
+                if format!("{:?}", back) != desc {
+                    o.bad("config_round_trip_changed", format!("{} -> {:?}", desc, back), &desc);
+                }
+            }
+            Err(e) => o.bad("config_round_trip_failed", e, &desc),
+        }
+        let sc = deadpool_redis::sentinel::Config {
+            urls: if rng2.chance(1, 2) { Some(vec![rng2.pick(GOOD_URLS).to_string()]) } else { None },
+            connections: if rng2.chance(1, 2) { Some(vec![gen_conn_info(&mut rng2)]) } else { None },
+            server_type: Default::default(),
+            master_name: rng2.pick(&["mymaster", "", "m\u{f6}"]).to_string(),
+            node_connection_info: None,
+            pool: if rng2.chance(2, 3) { Some(gen_pool_config(&mut rng2)) } else { None },
+        };
+        let desc = format!("{:?}", sc);
+        o.case(&desc, sc.pool.is_some());
+        match serde_json::to_string(&sc).map_err(|e| e.to_string()).and_then(|s| serde_json::from_str::<deadpool_redis::sentinel::Config>(&s).map_err(|e| format!("{} for {}", e, s))) {
             Ok(back) => {
                 if format!("{:?}", back) != desc {
                     o.bad("config_round_trip_changed", format!("{} -> {:?}", desc, back), &desc);
